@@ -197,7 +197,9 @@ theorem contracting_modulo (x y : IView) (s : Nat) :
   change pruneMod x y s c = some c' at h
   simp only [pruneMod] at h
   split at h
-  · cases h; exact Good.refl _ _
+  · split at h
+    · cases h
+    · cases h; exact Good.refl _ _
   · split at h
     · exact both_good hsT h
     · obtain ⟨c2, h12, h3⟩ := bind_some h
@@ -250,6 +252,23 @@ theorem checking_modulo (x y : IView) (s : Nat) (hx : x.WF) (hy : y.WF) (c c' : 
   simp only [holds, Bool.and_eq_true, bne_iff_ne, ne_eq, beq_iff_eq]
   exact ⟨hy0, by omega⟩
 
+/-- `checking` without a store precondition: a fixed divisor equal to 0 makes the propagator fail -/
+theorem checking_modulo_all (x y : IView) (s : Nat) (hx : x.WF) (hy : y.WF) :
+    Checking (prune (.modulo x y s)) (fun a => holds a (.modulo x y s) = true) (triggers (.modulo x y s)) := by
+  intro c c' a hf hm h
+  have hby : y.vmin c = y.eval a ∧ y.vmax c = y.eval a :=
+    y.bounds_fixed hm (fixedOn_view hf (mod_underIn_y x y s))
+  by_cases hnz : rangeHasZero (y.minRaw c.st) (y.maxRaw c.st) = false
+  · exact checking_modulo x y s hx hy c c' a hnz hf hm h
+  · exfalso
+    have h0 : rangeHasZero (y.vmin c) (y.vmax c) = true := by
+      have : rangeHasZero (y.minRaw c.st) (y.maxRaw c.st) = true := by simpa using hnz
+      exact this
+    change pruneMod x y s c = some c' at h
+    simp only [pruneMod] at h
+    rw [if_pos h0, if_pos (by rw [hby.1, hby.2])] at h
+    cases h
+
 /-! ### resp -/
 
 theorem resp_modulo (x y : IView) (s : Nat) :
@@ -262,7 +281,7 @@ theorem resp_modulo (x y : IView) (s : Nat) :
   simp only [pruneMod]
   rw [IView.vmin_agree hxT hag, IView.vmax_agree hxT hag, IView.vmin_agree hyT hag,
     IView.vmax_agree hyT hag, hag s hsT]
-  refine RelO.ite (fun _ => RelO.some hag) (fun _ => ?_)
+  refine RelO.ite (fun _ => RelO.ite (fun _ => RelO.none) (fun _ => RelO.some hag)) (fun _ => ?_)
   refine RelO.ite (fun _ => both_resp _ _ hsT hag) (fun _ => ?_)
   refine RelO.bind (RelO.bind ?_ (fun d1 d2 hd => ?_)) (fun d1 d2 hd => ?_)
   · exact RelO.ite (fun _ => both_resp _ _ hsT hag) (fun _ => RelO.some hag)
@@ -347,20 +366,11 @@ theorem modulo_divisor_sampling_counterexample :
     prune (.modulo (.var 0) (.var 1) 2) { st := st3 [12] [1, 5, 12] [2] } = none :=
   ⟨mem3 (by decide) (by decide) (by decide), by decide, by decide⟩
 
-/-- zero divisor: `x = 1`, `y = 0`, `s = 5`, everything fixed; the propagator succeeds although the
-constraint does not hold (no checking when the divisor range contains `0`). -/
-theorem modulo_zero_divisor_counterexample :
-    FixedOn (triggers (.modulo (.var 0) (.var 1) 2)) (st3 [1] [0] [5]) ∧
-    Mem (st3 [1] [0] [5]) (as3 1 0 5) ∧
-    (prune (.modulo (.var 0) (.var 1) 2) { st := st3 [1] [0] [5] }).isSome = true ∧
-    holds (as3 1 0 5) (.modulo (.var 0) (.var 1) 2) = false := by
-  refine ⟨?_, mem3 (by decide) (by decide) (by decide), by decide, by decide⟩
-  intro i hi
-  have : i = 2 ∨ i = 0 ∨ i = 1 := by simpa [triggers, optL, IView.underlying] using hi
-  rcases this with rfl | rfl | rfl
-  · exact ⟨5, rfl⟩
-  · exact ⟨1, rfl⟩
-  · exact ⟨0, rfl⟩
+/-- zero divisor: `x = 1`, `y = 0`, `s = 5`, everything fixed; the propagator now fails (witness of
+the former finding `zero-in-divisor-range`, repaired by `fix: Div/Modulo fail when the divisor is
+fixed to zero`) -/
+theorem modulo_zero_divisor_fails :
+    prune (.modulo (.var 0) (.var 1) 2) { st := st3 [1] [0] [5] } = none := by decide
 
 end PK
 end KModulo
